@@ -25,11 +25,24 @@ func VerifC20Instructions() {
 	ck, vk := kinds[zzverif.Choice("clientNAT", 3)], kinds[zzverif.Choice("visitorNAT", 3)]
 	c, _ := NewController(0)
 	attempts := 1 + zzverif.Choice("earlierAttempts", zzverif.Param("maxAttempts", 9))
+	// local (assisted) addresses: none, a private one, or - a party directly on the public network -
+	// the very address the server observed
+	assisted := func(name, kind string) []string {
+		switch zzverif.Choice(name, 3) {
+		case 1:
+			return []string{"192.168.1.5:100"}
+		case 2:
+			zzverif.Reach("C20.instr.party-on-the-public-network")
+			return []string{c20iAddrs[kind][0]}
+		}
+		return nil
+	}
+	cAssist, vAssist := assisted("clientAssisted", ck), assisted("visitorAssisted", vk)
 	var vResp, cResp *msg.NatHoleResp
 	for i := 0; i < attempts; i++ {
 		s := &Session{sid: "sid",
-			clientMsg:  &msg.NatHoleClient{TransactionID: "tc", MappedAddrs: append([]string(nil), c20iAddrs[ck]...)},
-			visitorMsg: &msg.NatHoleVisitor{TransactionID: "tv", MappedAddrs: append([]string(nil), c20iAddrs[vk]...), Protocol: "quic"}}
+			clientMsg:  &msg.NatHoleClient{TransactionID: "tc", MappedAddrs: append([]string(nil), c20iAddrs[ck]...), AssistedAddrs: append([]string(nil), cAssist...)},
+			visitorMsg: &msg.NatHoleVisitor{TransactionID: "tv", MappedAddrs: append([]string(nil), c20iAddrs[vk]...), AssistedAddrs: append([]string(nil), vAssist...), Protocol: "quic"}}
 		var err error
 		vResp, cResp, err = c.analysis(s)
 		if err != nil {
@@ -44,6 +57,28 @@ func VerifC20Instructions() {
 	zzverif.Assert(vb.Mode == cb.Mode, "C20.instr.same-mode-for-both")
 	zzverif.Assert((vb.Role == DetectRoleSender && cb.Role == DetectRoleReceiver) || (vb.Role == DetectRoleReceiver && cb.Role == DetectRoleSender), "C20.instr.exactly-one-sender-and-one-receiver")
 	zzverif.Assert(len(vResp.CandidateAddrs) >= 1 && vResp.CandidateAddrs[0] == c20iAddrs[ck][0] && len(cResp.CandidateAddrs) >= 1 && cResp.CandidateAddrs[0] == c20iAddrs[vk][0], "C20.instr.candidates-are-the-other-side's-observed-addresses")
+	// every distinct observed address of the other side is a candidate, and its local addresses are passed on
+	distinct := func(l []string) (r []string) {
+		for i, a := range l {
+			if i == 0 || a != l[i-1] {
+				r = append(r, a)
+			}
+		}
+		return
+	}
+	same := func(a, b []string) bool {
+		if len(a) != len(b) {
+			return false
+		}
+		for i := range a {
+			if a[i] != b[i] {
+				return false
+			}
+		}
+		return true
+	}
+	zzverif.Assert(same(vResp.CandidateAddrs, distinct(c20iAddrs[ck])) && same(cResp.CandidateAddrs, distinct(c20iAddrs[vk])), "C20.instr.every-observed-address-of-the-other-side-is-a-candidate")
+	zzverif.Assert(same(vResp.AssistedAddrs, cAssist) && same(cResp.AssistedAddrs, vAssist), "C20.instr.local-addresses-of-the-other-side-passed-on")
 	later := vb.SendDelayMs
 	if cb.SendDelayMs > later {
 		later = cb.SendDelayMs
